@@ -73,6 +73,12 @@ class SeqLogProbsH(_LseMixin, Harness):
             return [cells3[t][n] for t in range(T) for n in range(N)], (T, N)
         return [cells3[t][n] for n in range(N) for t in range(T)], (N, T)
 
+    def _pack(self, logits, lens):
+        c = self.cfg
+        if c.get("order"):
+            return _hand_pack(logits, lens, c["order"], bool(c["dim"]))
+        return torch.nn.utils.rnn.pack_padded_sequence(logits, torch.tensor(lens), batch_first=bool(c["dim"]), enforce_sorted=False)
+
     def symbolic(self, eng):
         c = self.cfg
         T, N, V = c["T"], c["N"], c["V"]
@@ -85,7 +91,7 @@ class SeqLogProbsH(_LseMixin, Harness):
         logits = eng.tensor([x for row in lf for x in row], tuple(ls) + (V,), torch.float32)
         lens = c.get("lens")
         if lens:
-            packed = torch.nn.utils.rnn.pack_padded_sequence(logits, torch.tensor(lens), batch_first=bool(c["dim"]), enforce_sorted=False)
+            packed = self._pack(logits, lens)
             out = self._call(packed, hyp)
         else:
             out = self._call(logits, hyp)
@@ -120,7 +126,7 @@ class SeqLogProbsH(_LseMixin, Harness):
         logits = torch.tensor(lf, dtype=torch.float32).reshape(tuple(ls) + (V,))
         lens = c.get("lens")
         if lens:
-            packed = torch.nn.utils.rnn.pack_padded_sequence(logits, torch.tensor(lens), batch_first=bool(c["dim"]), enforce_sorted=False)
+            packed = self._pack(logits, lens)
             out = self._call(packed, hyp)
         else:
             out = self._call(logits, hyp)
@@ -138,6 +144,23 @@ class SeqLogProbsH(_LseMixin, Harness):
             if abs(o[n] - tot) > 1e-4 * (1 + abs(tot)):
                 failures.append(f"sequence {n}: got {o[n]} expected {tot}")
         return dict(outputs=o, failures=failures)
+
+
+def _hand_pack(logits, lens, order, batch_first):
+    """a PackedSequence built by hand with the given (valid: lengths non-increasing) batch order - ties may be ordered differently from torch.sort"""
+    T = max(lens)
+    rows, bsz = [], []
+    for t in range(T):
+        k = 0
+        for n in order:
+            if lens[n] > t:
+                rows.append(logits[n, t] if batch_first else logits[t, n])
+                k += 1
+        bsz.append(k)
+    inv = [0] * len(order)
+    for i, n in enumerate(order):
+        inv[n] = i
+    return torch.nn.utils.rnn.PackedSequence(torch.stack(rows), torch.tensor(bsz), torch.tensor(order), torch.tensor(inv))
 
 
 class GreedyCtcH(_LseMixin, Harness):
@@ -580,6 +603,9 @@ def tasks(tier):
         ts.append(task(PROP, M_, "SeqLogProbsH", T=3, N=2, V=3, dim=dim, eos=eos, as_module=(dim == 1 and eos == 0)))
     for lens, dim in (([3, 1], 0), ([2, 3], 1)) if q else [(list(l), d) for l in itertools.product((1, 2, 3), repeat=2) if max(l) == 3 for d in (0, 1)]:
         ts.append(task(PROP, M_, "SeqLogProbsH", T=3, N=2, V=3, dim=dim, eos=None, lens=lens))
+    # hand-built packs whose equal-length sequences are not in torch.sort's order
+    for lens, order, dim in (([3, 3], [1, 0], 0), ([2, 2], [1, 0], 1)) if q else (([3, 3], [1, 0], 0), ([3, 3], [1, 0], 1), ([2, 2], [1, 0], 0), ([2, 2], [1, 0], 1), ([1, 3], [1, 0], 0)):
+        ts.append(task(PROP, M_, "SeqLogProbsH", T=3, N=2, V=3, dim=dim, eos=None, lens=lens, order=order))
     if not q:
         for dim, eos in itertools.product((0, 1), (None, 0, 2)):
             ts.append(task(PROP, M_, "SeqLogProbsH", T=4, N=2, V=3, dim=dim, eos=eos))
